@@ -63,11 +63,24 @@ def build(case):
 
 def judge(case, drv):
     font = cases.font_bytes(case)
+    if case.get('corrupt'):
+        # corrupted-but-accepted fonts (1..3 bytes inside Silf): their rule programs can fail at run time (statuses other than a clean
+        # DIE), which well-formed programs never do; history independence is claimed for every accepted font
+        import sfnt
+        rng = [(o, l) for t, o, l in sfnt.table_ranges(font) if t == b'Silf']
+        if rng:
+            fb = bytearray(font)
+            o, l = rng[0]
+            for frac, val in case['corrupt']:
+                fb[o + (frac * l) // 1000] = val
+            font = bytes(fb)
     fid = drv.put_font(font)
     payload, tags = build(case)
     try:
         r = drv.call(b'H' + struct.pack('<IBB', fid, 0, case['opts']) + payload, timeout=60)
     except DriverCrash as e:
+        if case.get('corrupt'):
+            raise Inconclusive()          # memory safety on odd fonts is C02's clause
         raise Violation('sanitizer:' + e.kind + ':' + e.summary, case, e.stderr[-1500:])
     except DriverHang:
         raise Inconclusive()
@@ -98,6 +111,8 @@ def judge(case, drv):
                     ppm = [x['ppm'] for x in case['ops'] if x['k'] == 'font'][op['font']]
                 cold = drv.call(b'S' + struct.pack('<IBB', fid, 0, case['opts']) + shape_params(tb, enc=op.get('enc', 4), dir=op.get('dir', 0), ppm=ppm), timeout=60)
             except DriverCrash as e:
+                if case.get('corrupt'):
+                    raise Inconclusive()
                 raise Violation('sanitizer:' + e.kind + ':' + e.summary, case, e.stderr[-1500:])
             except DriverHang:
                 raise Inconclusive()
@@ -229,7 +244,10 @@ def worker(ctx):
                 ops.append(dict(k='probe', text=t, dir=draw(st.integers(0, 1)), enc=4, font=-1, fv=-1))
         ops.append(dict(k='probe', text=texts[0], dir=draw(st.integers(0, 7)), enc=draw(st.sampled_from([1, 2, 4])), font=-1, fv=-1))
         ops.append(dict(k='report'))
-        return dict(base, ops=ops, opts=draw(st.sampled_from([0, 0, 2, 4, 6])))
+        case = dict(base, ops=ops, opts=draw(st.sampled_from([0, 0, 2, 4, 6])))
+        if base['kind'] == 'spec' and draw(st.integers(0, 3)) == 0:
+            case['corrupt'] = [[draw(st.integers(250, 999)), draw(st.sampled_from([0, 1, 2, 3, 0x7F, 0x80, 0xFF, 0x20, 0x31]))] for _ in range(draw(st.integers(1, 3)))]
+        return case
 
     def make(deco):
         @deco
@@ -292,7 +310,7 @@ def worker(ctx):
             hp = any(o['k'] == 'probe' and hinted(o) and any(q['k'] in ('seg', 'probe') and q.get('font') == o['font'] for q in case['ops'][:i]) for i, o in enumerate(case['ops']))
             rec.case(hinted_font_probe_after_use=hp, nontrivial_sig=json.dumps(case, sort_keys=True) if nt else None,
                      sample=dict(font=case.get('font', 'synthesised'), opts=case['opts'], ops=[(o['k'], o.get('text')) for o in case['ops'][:10]]) if nt else None,
-                     probes=nprobe, preloaded=case['opts'] & 2 > 0, cached_cmap=case['opts'] & 4 > 0, shipped=case['kind'] == 'shipped', with_justify=any(o['k'] == 'justify' for o in case['ops']),
+                     corrupted_font=bool(case.get('corrupt')), probes=nprobe, preloaded=case['opts'] & 2 > 0, cached_cmap=case['opts'] & 4 > 0, shipped=case['kind'] == 'shipped', with_justify=any(o['k'] == 'justify' for o in case['ops']),
                      with_fv_set=any(o['k'] == 'fv_set' for o in case['ops']), kept_segments=any(o['k'] == 'seg' and o.get('keep') for o in case['ops']))
         return t
 
